@@ -74,7 +74,24 @@ def main():
     res["all_confirmed"] = ok
     # run checks against /repo with the patch applied
     results = {}
-    if ok:
+    scratch_mode = os.environ.get("SEEDTEST_SCRATCH") == "1"
+    if ok and scratch_mode:
+        # the checks run against a scratch worktree that carries the change (VERIF_REPO), so that
+        # /repo itself stays free for other runs; same harness, same commands otherwise
+        sw = tempfile.mkdtemp(prefix="seedscratch-")
+        sh("git -C /repo worktree add -q --detach %s HEAD" % sw)
+        sh("git apply %s" % patch, cwd=sw)
+        try:
+            for c in (checks or [prop]):
+                t0 = time.time()
+                rc, out = sh("VERIF_REPO=%s ./check %s --no-evidence --workers 6" % (sw, c), cwd=V, timeout=3600)
+                viol = [l for l in out.splitlines() if l.startswith("VIOLATION")]
+                results[c] = {"exit": rc, "violations": len(viol), "wall_s": round(time.time() - t0, 1),
+                              "first": (viol[0] if viol else ""), "detail": next((l[:400] for l in out.splitlines() if l.startswith("violation detail")), "")}
+        finally:
+            sh("git -C /repo worktree remove --force %s" % sw)
+            shutil.rmtree(sw, ignore_errors=True)
+    elif ok:
         rc, out = sh("git -C /repo status --porcelain")
         if out.strip():
             print("refusing: /repo has uncommitted changes"); sys.exit(2)
@@ -103,7 +120,7 @@ def main():
     shutil.copytree(os.path.join(mdir, "demo"), os.path.join(sd, "demo"))
     meta.update({"seed_id": sid, "breaks_property": prop, "what_i_ran": {
         "confirmation": "scratch worktree of /repo HEAD: demo without patch; git apply; go build ./...; go test -vet=off -count=1 ./... ; demo with patch",
-        "checks": "git -C /repo apply patch.diff; ./check <id> --no-evidence (quick tier); git -C /repo checkout -- ."},
+        "checks": ("scratch worktree of /repo HEAD with patch.diff applied; VERIF_REPO=<worktree> ./check <id> --no-evidence (quick tier)" if os.environ.get("SEEDTEST_SCRATCH") == "1" else "git -C /repo apply patch.diff; ./check <id> --no-evidence (quick tier); git -C /repo checkout -- .")},
         "confirmed": res["confirmed"], "check_results": results, "detected_by": res["detected_by"]})
     json.dump(meta, open(os.path.join(sd, "meta.json"), "w"), indent=1)
     print(json.dumps({k: res[k] for k in ("seed", "property", "confirmed", "detected_by")}, indent=None))
